@@ -3,7 +3,7 @@ From Coq Require Import List Arith Lia Bool Permutation.
 From Kiki Require Import Base.Ord Base.Chars Data Oset.Model Lex.Model LR.Driver LR.Grammar LR.Inv LR.Complete LR.Sound LR.ErrPos LR.Viable LR.Least
   LR.Validate LR.ValidateProofs Front.Parse Front.FrontProofs Ast.Validate Ast.WF Ast.ValidateProofs Ast.VWF Ast.Truthful
   Build.Machine Build.DetProofs Build.Table Build.TableProofs Build.FillProofs Build.TableSpec Build.GenCorrect Np Build.NoPanic
-  Emit.Emit Emit.Parser Emit.NoPanic Pipeline.
+  Emit.Emit Emit.Hash Emit.HashProofs Emit.Parser Emit.NoPanic Pipeline.
 From Kiki Require Gen.Template.
 Import ListNotations.
 
@@ -198,4 +198,25 @@ Theorem generate_validation_error_truthful ho digest src tokens ast e :
 Proof.
   intros Ht Ha Hv. split; [|apply validate_ast_err_truthful, Hv].
   unfold generate_model, generate_full, front_end. rewrite Ht. cbn [bind]. rewrite Ha. cbn [bind]. rewrite Hv. reflexivity.
+Qed.
+
+(* ---------- C15 at the level of generate ---------- *)
+
+Lemma hole_env_digest f nm t consts digest env : hole_env f nm t consts digest = Ok env -> env_get env "grammar_sha256" = Some digest.
+Proof.
+  unfold hole_env. intros H.
+  apply bind_ok in H as (count & _ & H). apply bind_ok in H as (typedefs & _ & H). apply bind_ok in H as (rf & _ & H).
+  apply bind_ok in H as (arows & _ & H). apply bind_ok in H as (grows & _ & H). apply bind_ok in H as (tryfns & _ & H).
+  injection H as <-. reflexivity.
+Qed.
+
+Theorem generate_hash_roundtrip ho digest src text :
+  generate_model ho digest src = Ok text -> HashProofs.no_line_break digest -> Hash.get_grammar_hash text = Some digest.
+Proof.
+  unfold generate_model, generate_full. intros H Hd.
+  apply bind_ok in H as ([out tx] & H & E). injection E as <-.
+  apply bind_ok in H as (v & _ & H). apply bind_ok in H as ([m rt] & _ & H). apply bind_ok in H as (t & _ & H).
+  apply bind_ok in H as (text' & Ht & H). injection H as _ <-.
+  unfold table_to_rust in Ht. apply bind_ok in Ht as (nm & _ & Ht). apply bind_ok in Ht as (env & Henv & Hfill).
+  apply (HashProofs.template_roundtrip _ env text' digest HashProofs.current_template_header_ok Hfill (hole_env_digest _ _ _ _ _ _ Henv) Hd).
 Qed.
